@@ -10,6 +10,7 @@ import petl as etl
 from hypothesis import strategies as st
 
 from pv import gen, codec
+from pv import scale
 from pv.core import two_iterators, Sub, Fail, exc_fail
 
 ID = "C15"
@@ -116,7 +117,22 @@ def _is_bom_compressed(case):
     return False
 
 
+def _scaled(case, ctx, longcell=0):
+    """One case in twenty at scale: the first table's rows repeated until the output passes an 8 KiB buffer several times
+    over (and 1000 rows); sometimes one very long text cell (a line of more than 64 Ki characters for csv)."""
+    b = scale.derive(case, odds=20, sizes=[300, 1001, 1025, 2049], wide=False)
+    if not b or len(case["table"]) < 2:
+        return case
+    tbl = scale.apply(case["table"], b)
+    if longcell and b["rows"] % 2 and len(tbl) > 3 and tbl[3] and isinstance(tbl[3][0], str):
+        tbl[3][0] = "L" * longcell + tbl[3][0]
+        ctx.label("long-cell")
+    scale.label(ctx, b)
+    return dict(case, table=tbl)
+
+
 def check_csv(case, ctx):
+    case = _scaled(case, ctx, longcell=70000)
     enc, kind = case["encoding"], case["kind"]
     kw = {} if case["quoting"] == "default" else {
         "quoting": {"minimal": csv.QUOTE_MINIMAL, "all": csv.QUOTE_ALL, "nonnumeric": csv.QUOTE_NONNUMERIC}[case["quoting"]]}
@@ -223,6 +239,7 @@ def pickle_case(draw, tier):
 
 
 def check_pickle(case, ctx):
+    case = _scaled(case, ctx, longcell=9000)
     kind = case["kind"]
     t1, appends = case["table"], case["appends"]
     whkw = {} if case["write_header"] is None else {"write_header": case["write_header"]}
@@ -286,6 +303,7 @@ def _sq(t, missing=None):
 
 
 def check_json(case, ctx):
+    case = _scaled(case, ctx)
     t, kind, lines, form = case["table"], case["kind"], case["lines"], case["form"]
     tmp = ctx.tmpdir()
     target = _target(kind, tmp, "t.json", prior=case.get("prior"))
